@@ -31,6 +31,8 @@ ASSUMPTIONS = [
 ]
 FRONTENDS = ["pandas", "numpy_dict", "numpy_array", "xarray_coord", "xarray_var", "netcdf", "qcconfig", "netcdf_path",
              "xarray_path", "xarray_coord_axes", "xarray_other_dim"]
+# front ends exercised when the config tests an axis column (z / lat / lon) as a stream of its own
+AXIS_STREAM_FRONTENDS = ["pandas", "pandas", "numpy_dict", "xarray_coord", "netcdf", "netcdf_path", "xarray_path", "xarray_coord_axes"]
 NEIGHBOUR = {"spike_test", "rate_of_change_test", "flat_line_test", "attenuated_signal_test", "density_inversion_test",
              "speed_test", "pressure_increasing_test", "location_test"}
 
@@ -48,6 +50,10 @@ def ensure():
 def stream_case(draw, tier="quick"):
     tbl = draw(sg.table())
     sids = list(tbl["cols"])
+    axis_streams = bool(tbl["axes"]) and draw(st.integers(0, 3)) == 0
+    if axis_streams:
+        # the depth / latitude / longitude columns are themselves quality controlled (e.g. pressure_increasing on z)
+        sids = sids + list(tbl["axes"])
     nctx = draw(st.sampled_from([1, 1, 2, 3]))
     ctxs = []
     for _ in range(nctx):
@@ -60,6 +66,8 @@ def stream_case(draw, tier="quick"):
     if nctx == 3 and draw(st.integers(0, 3)) == 0:
         ctxs[2]["window"] = ctxs[0]["window"]  # the same context again, not adjacent in the list
     fes = draw(st.lists(st.sampled_from(FRONTENDS), min_size=2, max_size=4, unique=True))
+    if axis_streams:
+        fes = draw(st.lists(st.sampled_from(AXIS_STREAM_FRONTENDS), min_size=2, max_size=4, unique=True))
     return {"table": tbl, "contexts": ctxs, "style": draw(st.sampled_from(["iso", "datetime"])), "frontends": fes,
             "qc_tinp": draw(st.sampled_from(["ndarray", "ndarray", "list_datetime", "list_timestamp", "series", "dtindex"]))}
 
@@ -88,7 +96,7 @@ def expected(case, single_col=None, xarray_layout=None, deviations=None):
             mask = xarray_known_mask(tbl, c.get("window"), xarray_layout, deviations)
         for sid, entries in c["streams"].items():
             col = single_col or sid
-            if col not in tbl["cols"]:
+            if col not in sg.columns(tbl):
                 continue
             for mod, test, kw in entries:
                 tb = tbl if single_col is None else {**tbl, "cols": {sid: tbl["cols"][single_col]}}
@@ -97,14 +105,14 @@ def expected(case, single_col=None, xarray_layout=None, deviations=None):
                 out.append({"stream": sid, "test": f"{mod}.{test}" if fl is not None else None, "mask": mask, "flags": fl,
                             # the arrays the ContextResult itself carries: source restricted to the window rows, or
                             # zero-length when the table has no such axis
-                            "data": [tb["cols"][sid][i] for i in sel_],
+                            "data": [sg.columns(tb)[sid][i] for i in sel_],
                             "tinp": [sg.tnorm(tbl["t"][i]) for i in sel_] if tbl["t"] is not None else [],
                             "zinp": [tbl["axes"]["z"][i] for i in sel_] if "z" in tbl["axes"] else [],
                             "lat": [tbl["axes"]["lat"][i] for i in sel_] if "lat" in tbl["axes"] else [],
                             "lon": [tbl["axes"]["lon"][i] for i in sel_] if "lon" in tbl["axes"] else []})
                 if test.startswith("vf_probe"):
                     sel = [i for i, m in enumerate(mask) if m]
-                    rcp = {"tag": (kw or {}).get("tag"), "inp": [tb["cols"][sid][i] for i in sel]}
+                    rcp = {"tag": (kw or {}).get("tag"), "inp": [sg.columns(tb)[sid][i] for i in sel]}
                     if test == "vf_probe_min":
                         rcp["min"] = True
                     else:
@@ -154,7 +162,8 @@ def run_frontend(fe, case):
         if fe == "pandas":
             return observe(list(PandasStream(sg.make_df(tbl)).run(Config(cfg)))), None
         if fe == "numpy_dict":
-            inp = {k: sg.np_col(v) for k, v in tbl["cols"].items()}
+            tested = {sid for c in case["contexts"] for sid in c["streams"]}
+            inp = {k: sg.np_col(v) for k, v in sg.columns(tbl).items() if k in tbl["cols"] or k in tested}
             return observe(list(NumpyStream(inp=inp, time=tarr, **axes).run(Config(cfg)))), None
         if fe == "numpy_array":
             first = next(iter(tbl["cols"]))
@@ -284,6 +293,8 @@ def check_stream(case, rec):
                           "neighbour_test") if info[k]] + [f"index={info['index']}"] + [f"fe={f}" for f in case["frontends"]]
     if "qcconfig" in case["frontends"]:
         labels.append(f"qc_tinp={case.get('qc_tinp', 'ndarray')}")
+    if any(sid in case["table"]["axes"] for c in case["contexts"] for sid in c["streams"]):
+        labels.append("axis_column_tested")
     if not info["has_time"]:
         labels.append("no_time_column")
     elif any(float(v) != int(v) for v in case["table"]["t"]):
